@@ -458,3 +458,110 @@ func sortStable(n int, less func(i, j int) bool, swap func(i, j int)) {
 
 // CanonEqual compares two values as Thrift values with bit-exact doubles.
 func CanonEqual(a, b wm.W) bool { return wm.Equal(Canon(a), Canon(b)) }
+
+// MaxDeclared scans b as a value of kind k the way any decoder would walk it
+// and returns the largest length / element count declared by a header it
+// reaches (the scan stops silently at the first malformed or truncated spot).
+// It is used to keep inputs that would trigger a *known* allocation defect out
+// of checks that are not about allocation.
+func MaxDeclared(k wm.Kind, b []byte) int64 {
+	d := &dec{b: b}
+	var max int64
+	var walk func(k wm.Kind, depth int) bool
+	note := func(n uint32) {
+		if int64(int32(n)) > max {
+			max = int64(int32(n))
+		}
+	}
+	walk = func(k wm.Kind, depth int) bool {
+		if depth > 200 {
+			return false
+		}
+		switch k {
+		case wm.KBool, wm.KI8:
+			_, err := d.u8()
+			return err == nil
+		case wm.KI16:
+			_, err := d.u16()
+			return err == nil
+		case wm.KI32:
+			_, err := d.u32()
+			return err == nil
+		case wm.KI64, wm.KDouble:
+			_, err := d.u64()
+			return err == nil
+		case wm.KBinary:
+			n, err := d.u32()
+			if err != nil {
+				return false
+			}
+			note(n)
+			if int32(n) < 0 || d.need(int(n)) != nil {
+				return false
+			}
+			d.off += int(n)
+			return true
+		case wm.KStruct:
+			for {
+				t, err := d.u8()
+				if err != nil {
+					return false
+				}
+				if t == 0 {
+					return true
+				}
+				if _, err := d.u16(); err != nil {
+					return false
+				}
+				if !wm.Kind(t).Valid() || !walk(wm.Kind(t), depth+1) {
+					return false
+				}
+			}
+		case wm.KList, wm.KSet:
+			t, err := d.u8()
+			if err != nil {
+				return false
+			}
+			n, err := d.u32()
+			if err != nil {
+				return false
+			}
+			note(n)
+			if int32(n) < 0 || !wm.Kind(t).Valid() {
+				return false
+			}
+			for i := uint32(0); i < n; i++ {
+				if !walk(wm.Kind(t), depth+1) {
+					return false
+				}
+			}
+			return true
+		case wm.KMap:
+			kt, err := d.u8()
+			if err != nil {
+				return false
+			}
+			vt, err := d.u8()
+			if err != nil {
+				return false
+			}
+			n, err := d.u32()
+			if err != nil {
+				return false
+			}
+			note(n)
+			if int32(n) < 0 || !wm.Kind(kt).Valid() || !wm.Kind(vt).Valid() {
+				return false
+			}
+			for i := uint32(0); i < n; i++ {
+				if !walk(wm.Kind(kt), depth+1) || !walk(wm.Kind(vt), depth+1) {
+					return false
+				}
+			}
+			return true
+		}
+		return false
+	}
+	walk(k, 0)
+	return max
+}
